@@ -10,15 +10,15 @@ from ..lib.core import Failure, Disagreement
 
 PROP = "C06"
 LEAN_MODULE = "NixModel.Props.C06"
-THEOREMS_PLANNED = [
+THEOREMS = [
     "Nix.C06.C06_slice_indices",
     "Nix.C06.C06_window",
+    "Nix.C06.C06_get_slice",
     "Nix.C06.C06_window_read",
     "Nix.C06.C06_transform",
     "Nix.C06.C06_transform_refuses",
     "Nix.C06.C06_view_read",
     "Nix.C06.C06_write_exact",
-    "Nix.C06.C06_array",
 ]
 ASSUMPTIONS = [
     "array content is not modelled here (C01): reads and writes are described by the ordered list of parent "
@@ -866,7 +866,7 @@ def replay_failure(ctx, fj):
         env.close()
 
 
-READY = False
+READY = True
 MANIFEST = {
     "level_text": "Kernel-checked theorems over a Lean model of data_view.py and the DataArray index paths: a view is "
                   "valid exactly when every window lies inside the array (0 <= start <= stop <= extent) and then "
@@ -883,5 +883,3 @@ MANIFEST = {
     "technique": "Lean 4 proof (per-axis slice arithmetic + induction over the index tuple) with differential "
                  "correspondence and a NumPy oracle",
 }
-
-THEOREMS = ["Nix.C06.C06_invalid_read"]
